@@ -87,6 +87,52 @@ def incremental(world, seeds, ss, graph, mode, pool_seed=0):
     return list(b.vlog["attempts"]), world.edges_changed(edges), err
 
 
+def attempts_oracle(chk, world, att, held, now, case, what):
+    """
+    The property on the bare attempt log of one evaluation: at most once, nothing foreign, never before a declared
+    dependency that was attempted in the same evaluation, and the values the evaluation was given (`held`: [(cid,
+    canonical value)], `now`: cid -> canonical value afterwards) neither recomputed nor replaced.
+    """
+    if -1 in att:
+        chk.failure("%s: %d components of other graphs of the process were attempted" % (what, att.count(-1)), case)
+        att = [c for c in att if c != -1]
+    twice = sorted(set(c for c in att if att.count(c) > 1))
+    if twice:
+        chk.failure("%s: attempted more than once: %s (attempts %s)" % (what, twice, att), case)
+    pos = {}
+    for i, c in enumerate(att):
+        pos.setdefault(c, i)
+    for c in att:
+        sc = world.spec[c]
+        declared = set(x for it in sc["items"] for x in ([it[1]] if it[0] == "o" else it[1])) | set(sc["optional"])
+        declared |= set(world.ids.get(d) for d in dr.get_dependencies(world.comps[c]))
+        for d in sorted(x for x in declared if x is not None and x != c and x in pos):
+            if pos[d] > pos[c]:
+                chk.failure("%s: component %d attempted before its dependency %d, which was attempted later in the same "
+                            "evaluation (attempts %s)" % (what, c, d, att), case)
+    for cid, v in held:
+        if now.get(cid) != v:
+            chk.failure("%s: the value %s given for component %d before the evaluation is %s afterwards" % (what, v, cid, now.get(cid)), case)
+        if cid in pos:
+            chk.failure("%s: component %d was given a value before the evaluation and was recomputed" % (what, cid), case)
+
+
+def archive_entry_case(chk, world, graph, case):
+    """insights._run on a generated serialized archive (dr_world.archive_entry), held to attempts_oracle"""
+    b, att, why, err = W.archive_entry(world, graph, [tuple(x) for x in case["supplied"]], [tuple(x) for x in case["saved"]],
+                                       case.get("store_skips", False), case.get("parallel", False))
+    what = "insights._run(%s) on a serialized archive" % ("parallel" if case.get("parallel") else "serial")
+    if err is not None:
+        chk.failure("%s raised %r" % (what, err), case)
+        return
+    if why:
+        chk.failure("%s: %s" % (what, why), case)
+    sup = dict((cid, v) for cid, v in case["supplied"])
+    held = list(sup.items()) + [(cid, "A%d" % v) for cid, v in case["saved"] if cid not in sup]
+    now = dict((cid, W.canon_val(world, b.instances[world.comps[cid]])) for cid, _ in held if world.comps[cid] in b.instances)
+    attempts_oracle(chk, world, att, held, now, case, what)
+
+
 def history_oracle(chk, world, case):
     """the evaluation of a loaded archive that preceded the recorded evaluation (dr_world.loaded_archive_history)"""
     h = getattr(world, "history", None)
@@ -95,6 +141,10 @@ def history_oracle(chk, world, case):
     err, before, after = h
     if err is not None:
         chk.failure("evaluation of a loaded archive raised %r" % (err,), case)
+    else:
+        # it is an evaluation like any other: the property holds of it too
+        attempts_oracle(chk, world, world.history_attempts, [tuple(x) for x in case["pre"]], dict(world.history_held), case,
+                        "evaluation of a loaded archive")
     if after != before:
         diff = sorted(k for k in before if before[k] != after.get(k))
         chk.failure("evaluating a loaded archive changed the declared edges of %s: %s -> %s (every later evaluation "
@@ -199,6 +249,18 @@ def run(chk):
             for mode in ("run", "components"):
                 r = W.evaluate(world, seeds, ss, graph_after, mode=mode)
                 oracle(chk, world, r, dict(hcase, order=r.order_ids, eval_mode=mode))
+            # the stand-alone entry point on a serialized archive written by the real Hydration: some of the held values
+            # are in the caller's broker, some are saved in the archive, some both (the caller's one stays)
+            cids = [cid for cid, _ in pre]
+            by_name = [cid for cid in cids if dr.get_component_by_name(dr.get_name(world.comps[cid])) is world.comps[cid]]
+            saved = [(cid, 9000 + cid) for cid in by_name if rng.random() < 0.7]
+            only_saved = set(cid for cid, _ in saved if rng.random() < 0.4)
+            acase = {"spec": W.strip(spec), "seeds": seeds, "targets": targets, "order": None, "store_skips": ss, "dropped": dropped,
+                     "mode": "archive-entry", "supplied": [x for x in pre if x[0] not in only_saved], "saved": saved,
+                     "parallel": rng.random() < 0.3}
+            if saved:
+                archive_entry_case(chk, world, graph_after, acase)
+                chk.count("archive-entry:" + ("both" if any(c not in only_saved for c, _ in saved) else "saved-only"))
         # a later registration changes the edges among the SAME components: the next evaluation must see it
         cands = world.late_candidates(set(world.ids[k] for k in graph))
         if cands and rng.random() < 0.6:
@@ -234,6 +296,19 @@ def run(chk):
 
 def replay(data):
     case = data["case"]
+    if case.get("mode") == "archive-entry":
+        world, seeds, graph = W.rebuild(case)
+
+        class Rep(object):
+            bad = 0
+
+            def failure(self, desc, c):
+                self.bad += 1
+                print("oracle:", desc)
+        rep = Rep()
+        archive_entry_case(rep, world, graph, case)
+        print("property violated on this input" if rep.bad else "property holds on this input")
+        return 1 if rep.bad else 0
     if case.get("mode") in ("incremental", "pooled", "entry-parallel", "entry-serial"):
         world, seeds, graph = W.rebuild(case)
         if case.get("dropped") is not None:
